@@ -249,6 +249,7 @@ class HardcodeRepeatLists(JMCFunction):
         "begin_at": ArgType.INTEGER,
     },
     name="hardcode_switch",
+    param_count={"function": 1},
     ignore={"function", "switch"},
     number_type={"count": NumberType.POSITIVE},
     defaults={"begin_at": "1"},
